@@ -64,7 +64,7 @@ def run(model, tier="quick"):
     return res
 
 MANIFEST = {
-    "technique": "typestate analysis of memo caches (empty / filled-consistent / stale) over inlined method bodies (caches and their dependencies discovered from the source, instance- and class-level), formula identity of the derived views, shared-state rule (R-FRESH)",
+    "technique": "typestate analysis of memo caches (empty / filled-consistent / stale) over inlined method bodies (caches and their dependencies discovered from the source, instance- and class-level), escape analysis of the containers the memo getters hand out (parameter-mutation summaries), formula identity of the derived views, shared-state rule (R-FRESH)",
     "claim": "For every method of AaveV3Market (callees inlined, all paths): after a write to anything a DictCache's fill "
              "expression reads (derived from the source), the cache is reset before it is read and before the method is "
              "left (by return; by rejection for user operations). As this holds at every method boundary it covers every "
